@@ -180,17 +180,17 @@ theorem flt_roundtrip (x : Num) (is32 : Bool) (h : (if is32 then x.isF32 else x.
 theorem mapRes_ok_iff {α β} (f : α → β) (r : Res α) (b : β) : mapRes f r = .ok b ↔ ∃ a, r = .ok a ∧ b = f a := by
   cases r <;> simp [mapRes, eq_comm]
 
-theorem fromCtyP_ptr : ∀ (p : Payload) (ms : List String) (ty : Ty) (T : GoTy) (g : GoVal),
-    fromCtyP ms ty p T = .ok g → fromCtyP ms ty p (.ptr T) = .ok (.ptr g)
-  | .marked m r, ms, ty, T, g, h => by
+theorem fromCtyP_ptr : ∀ (p : Payload) (S : Sched) (ms : List String) (ty : Ty) (T : GoTy) (g : GoVal),
+    fromCtyP S ms ty p T = .ok g → fromCtyP S ms ty p (.ptr T) = .ok (.ptr g)
+  | .marked m r, S, ms, ty, T, g, h => by
     unfold fromCtyP at h ⊢
     simp only [GoTy.base, GoTy.depth]
     by_cases hc : T.base.isCval = true
     · simp only [hc, if_true] at h ⊢; cases h; rfl
     · simp only [Bool.not_eq_true] at hc
       simp only [hc, Bool.false_eq_true, if_false] at h ⊢
-      exact fromCtyP_ptr r _ ty T g h
-  | .null, ms, ty, T, g, h => by
+      exact fromCtyP_ptr r S _ ty T g h
+  | .null, S, ms, ty, T, g, h => by
     unfold fromCtyP at h ⊢
     simp only [GoTy.base, GoTy.depth]
     by_cases hc : T.base.isCval = true
@@ -206,9 +206,9 @@ theorem fromCtyP_ptr : ∀ (p : Payload) (ms : List String) (ty : Ty) (T : GoTy)
           cases h; simp [*, wrapPtr]
       · repeat' (split at h)
         all_goals first | (cases h; done) | (cases h; simp [*, wrapPtr]; done)
-  | .unk _, ms, ty, T, g, h | .b _, ms, ty, T, g, h | .n _, ms, ty, T, g, h | .s _, ms, ty, T, g, h
-  | .seq _, ms, ty, T, g, h | .smap _ _, ms, ty, T, g, h | .sset _ _, ms, ty, T, g, h
-  | .caps, ms, ty, T, g, h | .bad _, ms, ty, T, g, h => by
+  | .unk _, S, ms, ty, T, g, h | .b _, S, ms, ty, T, g, h | .n _, S, ms, ty, T, g, h | .s _, S, ms, ty, T, g, h
+  | .seq _, S, ms, ty, T, g, h | .smap _ _, S, ms, ty, T, g, h | .sset _ _, S, ms, ty, T, g, h
+  | .caps, S, ms, ty, T, g, h | .bad _, S, ms, ty, T, g, h => by
     unfold fromCtyP at h ⊢
     simp only [GoTy.base, GoTy.depth]
     by_cases hc : T.base.isCval = true
